@@ -32,6 +32,16 @@ def win(frame=True):
     if frame: w["frame"] = {"type": "Rows", "start": {"b": "Preceding", "n": 1}, "end": {"b": "CurrentRow"}}
     return w
 
+def rec_with(search=False, cycle=False):
+    """WITH RECURSIVE cte(k) AS (SELECT .. UNION ALL SELECT ..) [SEARCH ..] [CYCLE ..] (the options are PostgreSQL's)"""
+    w = {"recursive": True,
+         "ctes": [{"name": "cte", "cols": ["k"],
+                   "q": sel(c("column", n="k"), c("from", t=["t2"]), c("and_where", e=eq(col("x"), val())),
+                            c("union", type="All", q=sel(c("column", n="t1_id"), c("from", t=["t2"]), c("and_where", e=bin_("SmallerThan", col("x"), val())))))}]}
+    if search: w["search"] = {"order": "DEPTH", "e": col("k"), "set": "ord"}
+    if cycle: w["cycle"] = {"e": col("k"), "set": "is_cycle", "using": "path"}
+    return w
+
 def menu():
     _tag[0] = 1000
     select = [
@@ -53,15 +63,17 @@ def menu():
          [c("and_where", e={"k": "between", "neg": False, "e": col("a"), "a": val(), "b": val()}), c("and_where", e={"k": "like", "neg": False, "e": col("c"), "p": "x%", "esc": "|"})]],
         [[], [c("group_by_col", n="a")], [c("group_by_col", n="a"), c("group_by", e=bin_("Mod", col("b"), val()))]],
         [[], [c("and_having", e=bin_("GreaterThan", fn("Count", col("id")), val()))]],
-        [[], [c("union", type="All", q=sel(c("column", n="id"), c("from", t=["t2"]), c("and_where", e=eq(col("x"), val()))))],
-         [c("union", type="Distinct", q=sel(c("column", n="id"), c("from", t=["t2"]))), c("union", type="Except", q=sel(c("column", n="t1_id"), c("from", t=["t2"]), c("and_where", e=eq(col("x"), val()))))],
-         [c("union", type="Intersect", q=sel(c("column", n="id"), c("from", t=["t2"])))]],
+        [[], [c("union", type="All", q=sel(c("column", n="k"), c("from", t=["t2"]), c("and_where", e=eq(col("x"), val()))))],
+         [c("union", type="Distinct", q=sel(c("column", n="k"), c("from", t=["t2"]))), c("union", type="Except", q=sel(c("column", n="t1_id"), c("from", t=["t2"]), c("and_where", e=eq(col("x"), val()))))],
+         [c("union", type="Intersect", q=sel(c("column", n="k"), c("from", t=["t2"])))]],
         [[], [c("order_by", e=col("a"), o={"d": "Asc"})], [c("order_by", e=col("a"), o={"d": "Desc"}, nulls="Last"), c("order_by", e=col("id"), o={"d": "Asc"})],
          [c("order_by", e=col("a"), o={"d": "Field", "field": [V(), V()]})], [c("order_by", e=bin_("Add", col("a"), val()), o={"d": "Asc"}, nulls="First")]],
         [[], [c("limit", n=3)], [c("limit", n=3), c("offset", n=1)]],
         [[], [c("lock", type="Update")], [c("lock", type="Share", tables=[["t1"]], behavior="SkipLocked")]],
         [[], [c("window", name="w1", w=win(False))], [c("window", name="w1", w=win(True))]],
-        [[], [c("with_cte", w={"ctes": [{"name": "cte", "cols": ["k"], "q": sel(c("column", n="id"), c("from", t=["t2"]), c("and_where", e=eq(col("x"), val())))}]})]],
+        [[], [c("with_cte", w={"ctes": [{"name": "cte", "cols": ["k"], "q": sel(c("column", n="k"), c("from", t=["t2"]), c("and_where", e=eq(col("x"), val())))}]})],
+         [c("with_cte", w=rec_with(search=True))], [c("with_cte", w=rec_with(cycle=True))], [c("with_cte", w=rec_with(search=True, cycle=True))],
+         [c("with_cte", w=rec_with())]],
     ]
     insert = [
         [[c("into_table", t=["t1"])]],
@@ -77,7 +89,7 @@ def menu():
          [c("on_conflict", oc={"cols": ["id"], "target_where": bin_("GreaterThan", col("id"), val()), "action": {"update_cols": ["a", "b"]}})],
          [c("on_conflict", oc={"cols": ["id"], "action": {"nothing_on": ["id"]}})]],
         [[], [c("returning", r={"all": True})], [c("returning", r={"cols": ["id"]})], [c("returning", r={"exprs": [bin_("Add", col("a"), val())]})]],
-        [[], [c("with_cte", w={"ctes": [{"name": "cte", "cols": ["k"], "q": sel(c("column", n="id"), c("from", t=["t2"]), c("and_where", e=eq(col("x"), val())))}]})]],
+        [[], [c("with_cte", w={"ctes": [{"name": "cte", "cols": ["k"], "q": sel(c("column", n="k"), c("from", t=["t2"]), c("and_where", e=eq(col("x"), val())))}]})]],
     ]
     update = [
         [[c("table", t=["t1"])]],
@@ -88,7 +100,7 @@ def menu():
         [[], [c("order_by", e=col("id"), o={"d": "Desc"})], [c("order_by", e=col("b"), o={"d": "Asc"}, nulls="Last")]],
         [[], [c("limit", n=2)]],
         [[], [c("returning", r={"all": True})], [c("returning", r={"exprs": [bin_("Mul", col("a"), val())]})]],
-        [[], [c("with_cte", w={"ctes": [{"name": "cte", "cols": ["k"], "q": sel(c("column", n="id"), c("from", t=["t2"]), c("and_where", e=eq(col("x"), val())))}]})]],
+        [[], [c("with_cte", w={"ctes": [{"name": "cte", "cols": ["k"], "q": sel(c("column", n="k"), c("from", t=["t2"]), c("and_where", e=eq(col("x"), val())))}]})]],
     ]
     delete = [
         [[c("from_table", t=["t1"])]],
@@ -97,7 +109,7 @@ def menu():
         [[], [c("order_by", e=col("id"), o={"d": "Desc"})], [c("order_by", e=col("a"), o={"d": "Field", "field": [V(), V()]})]],
         [[], [c("limit", n=2)]],
         [[], [c("returning", r={"all": True})], [c("returning", r={"cols": ["id", "a"]})]],
-        [[], [c("with_cte", w={"ctes": [{"name": "cte", "cols": ["k"], "q": sel(c("column", n="id"), c("from", t=["t2"]), c("and_where", e=eq(col("x"), val())))}]})]],
+        [[], [c("with_cte", w={"ctes": [{"name": "cte", "cols": ["k"], "q": sel(c("column", n="k"), c("from", t=["t2"]), c("and_where", e=eq(col("x"), val())))}]})]],
     ]
     return {"select": select, "insert": insert, "update": update, "delete": delete}
 
@@ -130,7 +142,7 @@ def rand_cond(rng, depth, cols):
 
 def rand_select(rng, depth, single=False):
     t = rng.choice(["t1", "t2"])
-    cols = ["id", "a", "b"] if t == "t1" else ["id", "t1_id", "x"]
+    cols = ["id", "a", "b"] if t == "t1" else ["k", "t1_id", "x"]
     calls = []
     if depth > 0 and rng.random() < 0.2:
         calls.append(c("with_cte", w={"ctes": [{"name": "cte", "cols": ["k"], "q": rand_select(rng, depth - 1, single=True)}]}))
@@ -156,7 +168,7 @@ def rand_select(rng, depth, single=False):
 
 def rand_select_n(rng, depth, n):
     t = "t2"
-    cols = ["id", "t1_id", "x"]
+    cols = ["k", "t1_id", "x"]
     calls = [c("column", n=cols[i % 3]) for i in range(n)] + [c("from", t=[t])]
     if rng.random() < 0.6: calls.append(c("and_where", e=rand_expr(rng, 1, cols)))
     return sel(*calls)
